@@ -25,6 +25,11 @@ PROFILES.update({
     'C18': P(5000, 60, 200000, 1500),
 })
 
+# site-triggered fault enumeration: base programs, cap on points per base program, wall budget
+_ENUM = dict(quick=dict(bases=32, max_points=60, budget_s=40), thorough=dict(bases=4000, max_points=400, budget_s=900))
+for _p in ('C07', 'C10', 'C12'):
+    PROFILES[_p]['enum'] = _ENUM
+
 import simcheck as _sc
 PROFILES.update({
     'C13': P(6000, 60, 300000, 1500),
